@@ -45,16 +45,18 @@ struct Cell {
     std::function<void(u16)> set;
     std::function<u16(void)> get;
     u16 index = 0;
+    // backing storage of bits/registers that are not bound to a component; cleared on reset
+    std::shared_ptr<u16> storage;
 
     Cell(std::function<void(u16)> set, std::function<u16(void)> get)
         : set(std::move(set)), get(std::move(get)) {}
     Cell() {
-        std::shared_ptr<u16> storage = std::make_shared<u16>(0);
-        set = [storage, this](u16 value) {
+        storage = std::make_shared<u16>(0);
+        set = [storage = storage, this](u16 value) {
             *storage = value;
             std::printf("MMIO: cell %04X set = %04X\n", index, value);
         };
-        get = [storage, this]() -> u16 {
+        get = [storage = storage, this]() -> u16 {
             std::printf("MMIO: cell %04X get\n", index);
             return *storage;
         };
@@ -82,6 +84,7 @@ struct Cell {
     static Cell BitFieldCell(const std::vector<BitFieldSlot>& slots) {
         Cell cell({}, {});
         std::shared_ptr<u16> storage = std::make_shared<u16>(0);
+        cell.storage = storage;
         cell.set = [storage, slots](u16 value) {
             for (const auto& slot : slots) {
                 if (slot.set) {
@@ -351,6 +354,13 @@ MMIORegion::MMIORegion(MemoryInterfaceUnit& miu, ICU& icu, Apbp& apbp_from_cpu, 
 }
 
 MMIORegion::~MMIORegion() = default;
+
+void MMIORegion::Reset() {
+    for (auto& cell : impl->cells) {
+        if (cell.storage)
+            *cell.storage = 0;
+    }
+}
 
 u16 MMIORegion::Read(u16 addr) {
     u16 value = impl->cells[addr].get();
